@@ -48,3 +48,20 @@ impl VCounter {
         self.0.wait_guards().await
     }
 }
+
+/// Marks the extent of the database work inside the blocking closures of
+/// `RedbStore::read_tx` / `write_tx`: `sched_point("redb:tx-start")` when created (first
+/// statement of the closure's transaction block), `sched_point("redb:tx-end")` when dropped
+/// (after the transaction object is gone, before the closure's own locals are).
+pub(crate) struct TxScope(());
+
+pub(crate) fn tx_scope() -> TxScope {
+    sched_point("redb:tx-start");
+    TxScope(())
+}
+
+impl Drop for TxScope {
+    fn drop(&mut self) {
+        sched_point("redb:tx-end");
+    }
+}
